@@ -3238,7 +3238,20 @@ impl<'a> Visitor<'a, '_, Error> for JSONValidator<'a> {
     }
 
     if let Value::Object(_) = &self.json {
-      return self.validate_object_value(value);
+      // Only a member key is looked up in the object; anywhere else a literal
+      // denotes a single value, which an object never is
+      if self.state.is_member_key {
+        return self.validate_object_value(value);
+      }
+
+      if !matches!(
+        self.state.ctrl,
+        Some(ControlOperator::NE) | Some(ControlOperator::DEFAULT)
+      ) {
+        self.add_error(format!("expected value {}, got {}", value, self.json));
+      }
+
+      return Ok(());
     }
 
     let error: Option<String> = match value {
